@@ -525,6 +525,18 @@ fn op_filtercfg(toks: &[Tok], prop: &str) -> Outcome {
         if w.0 != wb.0 {
             oracle.push(("conversions_agree".into(), "From<&DltFilterConfig> and From<DltFilterConfig> differ".into()));
         }
+        // the processed sets are the configured id lists as sets (nothing dropped, trimmed, truncated or added), the
+        // counts are copied
+        for (what, list, set) in [("app", &f.app_ids, &a.app_ids), ("ecu", &f.ecu_ids, &a.ecu_ids), ("context", &f.context_ids, &a.context_ids)] {
+            let want: Option<std::collections::BTreeSet<&String>> = list.as_ref().map(|l| l.iter().collect());
+            let got: Option<std::collections::BTreeSet<&String>> = set.as_ref().map(|s| s.iter().collect());
+            if want != got {
+                oracle.push(("sets_are_the_configured_ids".into(), format!("{} ids {:?} became {:?}", what, list, got)));
+            }
+        }
+        if a.app_id_count != f.app_id_count || a.context_id_count != f.context_id_count {
+            oracle.push(("counts_copied".into(), "app_id_count / context_id_count changed by the conversion".into()));
+        }
         if let Some(l) = f.min_log_level {
             if !(1..=6).contains(&l) && a.min_log_level.is_some() {
                 oracle.push(("level_outside_1_6_is_none".into(), format!("min_log_level {} became {:?}", l, a.min_log_level)));
